@@ -322,8 +322,11 @@ func propC15(e *Env) {
 			got = append(got, l.Line)
 		}
 	})
-	if !e.S.Run(50_000_000) {
-		e.Fail("not-quiescent", "reader/consumer did not finish in the step budget (%d steps)", e.S.Steps)
+	// the reader and the consumer hand over one line per couple of steps: the budget scales with the stream
+	e.S.MaxSteps = 40*len(stream) + 100000
+	e.S.SpinOuts = 1 << 30 // reading a long stream byte by byte is a long computation, not a livelock
+	if !e.S.Run(e.S.MaxSteps) {
+		e.Fail("not-quiescent", "reader/consumer did not finish in the step budget (%d steps for %d bytes) %s", e.S.Steps, len(stream), e.S.Livelock)
 		return
 	}
 	if live := e.S.Live(); len(live) > 0 {
